@@ -350,7 +350,7 @@ func runSweep(c *core.Ctx, t *core.Trace) {
 			}
 			n := uint64(c.Pick(48, 400))
 			sn := s.n
-			if s.name == "bytes" && sn > 640 && sn < nStr3 {
+			if s.fam == "bytes" && sn > 640 && sn < nStr3 {
 				// the space of one string per length: TLC judges the sample among the lengths up to 640
 				// (its evaluation of the operators on strings of tens of kilobytes takes minutes each)
 				sn = 640
